@@ -144,10 +144,47 @@ def path_str(p):
     return "." if not p else ".".join(("#%d" % k) if isinstance(k, int) else k for k in p)
 
 
+class SubField(csr.Field):
+    """a user's own subclass of csr.Field (a `Bit`, a `Reserved`, …) is a field like any other"""
+
+
+class SubDict(dict):
+    pass
+
+
+class SubList(list):
+    pass
+
+
+def respell(obj, us, memo=None):
+    """the same collection with some fields as instances of a Field subclass, some dicts as OrderedDict / a dict
+    subclass, some lists as a list subclass (object sharing is kept)"""
+    import collections
+    memo = {} if memo is None else memo
+    if id(obj) in memo:
+        return memo[id(obj)]
+    if isinstance(obj, csr.Field):
+        new = obj
+        if us.random() < .4 and hasattr(obj, "_action_cls"):
+            new = SubField(obj._action_cls, *obj._args, **obj._kwargs)
+    elif isinstance(obj, dict):
+        items = [(k, respell(v, us, memo)) for k, v in obj.items()]
+        x = us.random()
+        new = collections.OrderedDict(items) if x < .25 else SubDict(items) if x < .4 else dict(items)
+    else:
+        items = [respell(v, us, memo) for v in obj]
+        new = SubList(items) if us.random() < .3 else list(items)
+    memo[id(obj)] = new
+    return new
+
+
 def run_impl(case):
     rnd = lib.rng_for(case["seed"], case["idx"], 1111)
     eacc = rnd.choice(["rw", "rw", "r", "w"])
     fields, toks = gen_tree(rnd, 0, eacc, lib.rng_for(case["seed"], case["idx"], 1121))
+    us = lib.rng_for(case["seed"], case["idx"], 1141)
+    if us.random() < .35:
+        fields = respell(fields, us)
     lines = ["case " + eacc + " " + " ".join(toks)]
     stats = {"refused": 0, "annot": 0, "fields": 0, "nested": int(toks[0] != "F"), "nonreadable_in_middle": 0, "cycles": 0,
              "joined_name_collision": int(len({"__".join(map(str, p)) for p in _paths(toks)}) < len(_paths(toks)))}
@@ -207,7 +244,7 @@ def run_impl(case):
             # what is checked below is then its second elaboration
             Simulator(simutil.wrap(dut))
             stats["pre_elaborated"] = 1
-        sim = Simulator(simutil.wrap(dut))
+        sim = simutil.simulator(simutil.wrap(dut), case, p=0)
     except Exception as e:
         if not lib.from_code_under_test(e):
             raise
